@@ -198,11 +198,18 @@ func (t *Teamserver) ListenerEdit(Type int, Config any) {
 		for i := range t.Listeners {
 
 			if t.Listeners[i].Name == Config.(handlers.HTTPConfig).Name {
-				t.Listeners[i].Config.(*handlers.HTTP).Config.UserAgent = Config.(handlers.HTTPConfig).UserAgent
-				t.Listeners[i].Config.(*handlers.HTTP).Config.Headers = Config.(handlers.HTTPConfig).Headers
-				t.Listeners[i].Config.(*handlers.HTTP).Config.Uris = Config.(handlers.HTTPConfig).Uris
-				t.Listeners[i].Config.(*handlers.HTTP).Config.Proxy = Config.(handlers.HTTPConfig).Proxy
-				t.Listeners[i].Config.(*handlers.HTTP).Config.BehindRedir = t.Profile.Config.Demon.TrustXForwardedFor
+				// the name may belong to a listener of another type by now
+				HTTP, ok := t.Listeners[i].Config.(*handlers.HTTP)
+				if !ok {
+					logger.Error("Listener is not a HTTP listener: ", t.Listeners[i].Name)
+					continue
+				}
+
+				HTTP.Config.UserAgent = Config.(handlers.HTTPConfig).UserAgent
+				HTTP.Config.Headers = Config.(handlers.HTTPConfig).Headers
+				HTTP.Config.Uris = Config.(handlers.HTTPConfig).Uris
+				HTTP.Config.Proxy = Config.(handlers.HTTPConfig).Proxy
+				HTTP.Config.BehindRedir = t.Profile.Config.Demon.TrustXForwardedFor
 			}
 
 		}
